@@ -235,7 +235,8 @@ def run(run):
         "harness glue: (day, second, nanosecond) <-> epoch nanoseconds, wall-clock fields <-> IsoDateTime, POSIX offsets negated to seconds east",
         "error kinds are not asserted: a query in a zone without a file must fail with some error (generic today)",
         "check_identifier('Factory') is left unasserted (tzdata's placeholder zone is listed in tzdata.zi but is absent from the baked normalizer)",
-        "the list returned for a wall-clock reading is compared as a set of instants",
+        "the list returned for a wall-clock reading is compared as a set of instants; for real zones (the provider's own wrapper) the list must also be in ascending order "
+        "(class instants-not-ascending), for synthetic zones the order is not observed (the wrapper is replicated in the harness)",
         "synthetic TZif data: the TZif version 2 writer (harness/src/synth_tzif.rs; checked by re-writing real files and parsing them back, and by comparing every parse with the description) and the "
         "replica of FsTzdbProvider's two thin lookup wrappers (floor to seconds + Tzif::get; v2_estimate_tz_pair + offset subtraction) in harness/src/ops_tzdb.rs, needed because the provider only reads "
         "/usr/share/zoneinfo; type offsets are kept within RFC 8536's recommended range [-89999, 93599]; files with an empty footer are rejected by the tzif crate's parser (no table: queries must fail)",
